@@ -167,7 +167,7 @@ def main():
       ],
       "checks": checks,
       "not_applicable": na,
-      "notes": "All checks: ./check <ID> --tier quick|thorough rebuilds the CLI and the harness from /repo's working tree, honours VERIF_SEED, writes /verif/evidence/<ID>.json. Exit 2 = infrastructure failure (build error, watchdog on a run or a single case that does not return: 150 s for a case that only calls library code, 900 s for one that runs the binary), never a verdict. Quick runs stop starting new generated cases after a soft deadline of 600 s (VERIF_SOFT_DEADLINE_S; runs take 2-110 s per check on the unchanged tree) and then judge what they explored; evidence coverage.budgets records whether that happened. known_findings.json lists repaired (fixed:) and recorded (known) defects.",
+      "notes": "All checks: ./check <ID> --tier quick|thorough rebuilds the CLI and the harness from /repo's working tree, honours VERIF_SEED, writes /verif/evidence/<ID>.json. Exit 2 = infrastructure failure (build error, watchdog on a run or a single case that does not return: 150 s for a case that only calls library code, 900 s for one that runs the binary), never a verdict. Quick runs stop starting new generated cases after a soft deadline of 600 s (VERIF_SOFT_DEADLINE_S; runs take 2-110 s per check on the unchanged tree) and then judge what they explored; evidence coverage.budgets records whether that happened. known_findings.json lists repaired (fixed:) and recorded (known) defects. /repo commit 6c94ab1 (`uncommitted hook changes`, made by the end-of-round snapshot) is not a hook: it is a seeded test change of /verif/seeded/C01-13 that was still applied to /repo's working tree when a session ended; it is unguarded, made `**` hang, and is reverted by the fix: commit 124d397 (finding F31, DESIGN.md §7). The only hook commit is 8f94292.",
     }
     json.dump(m, open('/verif/MANIFEST.json','w'), indent=1)
     print("checks:", [c['property_id'] for c in checks], "na:", len(na))
